@@ -53,7 +53,40 @@ fn scenario(round_trip_after_death: bool) -> (isize, isize) {
     (at::LIVE_BYTES.load(Relaxed) - bytes0, at::LIVE_BLOCKS.load(Relaxed) - blocks0)
 }
 
+/// the sentinel of `Weak::new()` owns no allocation: a raw round trip must give back the sentinel, and
+/// nothing may be read or written through it (C02, C05)
+fn dangling_round_trip() -> Result<(), String> {
+    let bytes0 = at::LIVE_BYTES.load(Relaxed);
+    for _ in 0..4 {
+        let w: Weak<N> = unsafe { Weak::from_raw(Weak::<N>::new().into_raw()) };
+        if w.upgrade().is_some() || w.strong_count() != 0 || w.weak_count() != 0 || !w.ptr_eq(&Weak::new()) {
+            return Err(format!(
+                "dangling Weak after a raw round trip: upgrade={} strong={} weak={} ptr_eq(new)={}",
+                w.upgrade().is_some(),
+                w.strong_count(),
+                w.weak_count(),
+                w.ptr_eq(&Weak::new())
+            ));
+        }
+        let c = w.clone();
+        drop(w);
+        if c.upgrade().is_some() {
+            return Err("clone of a round-tripped dangling Weak upgrades".into());
+        }
+        let c2 = unsafe { Weak::from_raw(c.into_raw()) };
+        drop(c2);
+    }
+    if at::LIVE_BYTES.load(Relaxed) != bytes0 {
+        return Err("dangling Weak round trip changed the heap".into());
+    }
+    Ok(())
+}
+
 pub fn main() -> i32 {
+    if let Err(m) = dangling_round_trip() {
+        println!("FAIL {}", m);
+        return 1;
+    }
     let _ = scenario(false); // warm-up
     for after in [false, true] {
         let (bytes, blocks) = scenario(after);
@@ -67,6 +100,6 @@ pub fn main() -> i32 {
             return 1;
         }
     }
-    println!("ok scenarios=2");
+    println!("ok scenarios=3");
     0
 }
